@@ -448,9 +448,8 @@ def run_job(prop, job, tier, kf_defs, keep):
         return r
     r["status"] = "held"
     if not keep:
-        for f in os.listdir(jdir):
-            if f.endswith(".gb"):
-                os.remove(os.path.join(jdir, f))
+        # disk is limited: a held job leaves nothing behind (its numbers are in the evidence file)
+        shutil.rmtree(jdir, ignore_errors=True)
     r["wall_s"] = round(time.time() - t0, 2)
     return r
 
